@@ -84,7 +84,7 @@ func (cn *Conn) readLoop() {
 			f.Attempts = binary.BigEndian.Uint16(data[8:10])
 			f.ID = string(data[10:26])
 			f.Body = data[26:]
-			hlib.Emit("HRecv", "conn", cn.Name, "id", f.ID, "att", int(f.Attempts), "ts", f.TS, "body", f.Body)
+			hlib.Emit("HRecv", "conn", cn.Name, "id", f.ID, "att", int(f.Attempts), "ts", f.TS, "body", f.Body, "now", time.Now().UnixNano())
 		}
 		cn.frames <- f
 	}
@@ -196,7 +196,7 @@ func (cn *Conn) sub(topic, channel string) error {
 }
 
 func (cn *Conn) cmd(kind, id string, arg string) error {
-	hlib.Emit("HCmd", "conn", cn.Name, "cmd", kind, "id", id, "arg", arg)
+	hlib.Emit("HCmd", "conn", cn.Name, "cmd", kind, "id", id, "arg", arg, "now", time.Now().UnixNano())
 	switch kind {
 	case "FIN", "TOUCH":
 		return cn.send(kind+" "+id+"\n", nil)
